@@ -4,6 +4,7 @@ import (
 	"context"
 	"fmt"
 
+	"github.com/form3tech-oss/f1/v2/internal/metrics"
 	"github.com/form3tech-oss/f1/v2/pkg/f1"
 	f1testing "github.com/form3tech-oss/f1/v2/pkg/f1/testing"
 	"github.com/form3tech-oss/f1/v2/verifharness/core"
@@ -16,6 +17,7 @@ type c20Comp struct {
 	Setup  int `json:"setup"`  // behaviour kind in setup
 	Iter   int `json:"iter"`   // behaviour kind in the iteration function
 	Period int `json:"period"` // the iteration behaviour applies when id % period == 0 (1 = always)
+	Timed  bool `json:"timed"` // the iteration behaviour happens inside a t.Time(...) block
 }
 
 type c20Params struct {
@@ -23,6 +25,7 @@ type c20Params struct {
 	Conc  int       `json:"conc"`
 	N     int       `json:"n"`
 	Mode  string    `json:"mode"`
+	Reps  int       `json:"reps"` // consecutive runs of the same combined scenario value
 }
 
 func init() {
@@ -48,8 +51,13 @@ func init() {
 					}
 					if r.IntN(3) == 0 {
 						cp.Iter = 1 + r.IntN(engine.NumBehaviours-1)
+						cp.Timed = r.IntN(3) == 0
 					}
 					p.Comps = append(p.Comps, cp)
+				}
+				p.Reps = 1
+				if i%3 == 0 {
+					p.Reps = 2 + r.IntN(2)
 				}
 				cse := core.MkCase("C20", "combine", i, seed, p)
 				cse.Race = i%4 == 0
@@ -67,19 +75,24 @@ func init() {
 func c20Run(c *core.Case, o *core.Outcome) {
 	var p c20Params
 	c.Params(&p)
-	l := engine.NewLog()
+	metrics.Init(true) // T.Time records through the process-wide instance
+	cur := &c20Cur{l: engine.NewLog()}
 	var comps []f1testing.ScenarioFn
 	for i, cp := range p.Comps {
 		i, cp := i, cp
 		comps = append(comps, func(t *f1testing.T) f1testing.RunFn {
-			l.Add("setup", engine.HandleID(t), "", int64(i), "")
+			cur.l.Add("setup", engine.HandleID(t), "", int64(i), "")
 			if cp.Setup != engine.BPass {
 				engine.Behave(t, cp.Setup)
 			}
 			return func(t *f1testing.T) {
-				l.Add("iter", engine.HandleID(t), t.Iteration, int64(i), "")
+				cur.l.Add("iter", engine.HandleID(t), t.Iteration, int64(i), "")
 				if cp.Iter != engine.BPass && engine.IDOf(t)%uint64(cp.Period) == 0 {
-					engine.Behave(t, cp.Iter)
+					if cp.Timed {
+						t.Time("stage", func() { engine.Behave(t, cp.Iter) })
+					} else {
+						engine.Behave(t, cp.Iter)
+					}
 				}
 			}
 		})
@@ -92,14 +105,24 @@ func c20Run(c *core.Case, o *core.Outcome) {
 	}
 	spec.MaxIterations = uint64(p.N)
 	spec.IgnoreDropped = true
+	combined := f1.CombineScenarios(comps...)
+	for rep := 1; rep <= max(p.Reps, 1) && o.Verdict == core.Held; rep++ {
+		cur.l = engine.NewLog()
+		c20Once(c, o, &p, spec, cur.l, combined, rep)
+	}
+}
+
+type c20Cur struct{ l *engine.Log }
+
+func c20Once(c *core.Case, o *core.Outcome, p *c20Params, spec engine.Spec, l *engine.Log, combined f1testing.ScenarioFn, rep int) {
 	ctx, cancel := context.WithCancel(context.Background())
 	defer cancel()
-	r := engine.Execute(ctx, spec, l, f1.CombineScenarios(comps...), nil, nil)
+	r := engine.Execute(ctx, spec, l, combined, nil, nil)
 	if r.NewErr != nil {
 		o.Inconc("harness: cannot build run: %v", r.NewErr)
 		return
 	}
-	desc := fmt.Sprintf("comps=%+v conc=%d N=%d mode=%s", p.Comps, p.Conc, p.N, p.Mode)
+	desc := fmt.Sprintf("comps=%+v conc=%d N=%d mode=%s run %d/%d of the same combined scenario", p.Comps, p.Conc, p.N, p.Mode, rep, max(p.Reps, 1))
 	key := "combine:" + desc
 	if len(key) > 300 {
 		key = key[:300]
@@ -117,7 +140,7 @@ func c20Run(c *core.Case, o *core.Outcome) {
 		}
 	}
 	evs := l.Events()
-	o.Events = int64(len(evs))
+	o.Events += int64(len(evs))
 	var setupHandle string
 	setupsSeen := 0
 	type itState struct {
